@@ -111,25 +111,25 @@ def _lit(s: str) -> str:
 
 
 FIELDS = {
-    'epytext': dict(sect='\u00e9 @@CNS99@@\n' + '=' * _NS_LEN + '\n\nSection text.\n\n@@CNS98@@ \u043f\n' + '-' * _NS_LEN + '\n\nSubsection text.', param='@param a: pa @@CAN17@@', typ='@type a: C{{@@CNQ18@@}}', badparam='@param @@CAN19@@: unknown param',
+    'epytext': dict(onesect='@@CNS97@@ x\n' + '=' * _NS_LEN + '\n\nThe only section.', sect='\u00e9 @@CNS99@@\n' + '=' * _NS_LEN + '\n\nSection text.\n\n@@CNS98@@ \u043f\n' + '-' * _NS_LEN + '\n\nSubsection text.', param='@param a: pa @@CAN17@@', typ='@type a: C{{@@CNQ18@@}}', badparam='@param @@CAN19@@: unknown param',
                     rais='@raise @@CAN20@@: exc @@CAN35@@', ret='@return: r @@CAN21@@', see='@see: @@CAN22@@', unk='@unknownfield @@CAN23@@: x',
                     ivar='@ivar iv: d @@CAN26@@', cvar='@cvar @@CAN27@@: bad name', rtype='@rtype: @@CNQ32@@', inline='C{{@@CAN36@@}} B{{@@CAN37@@}} U{{label<http://example.com/@@CAQ70@@>}} U{{http://example.com/@@CAQ71@@}} L{{@@CAW74@@ <canpkg.mod.f>}} L{{@@CAW75@@ <nosuchtarget>}} U{{@@CAW76@@ <http://example.com/>}}'),
-    'restructuredtext': dict(sect='\u00e9 @@CNS99@@\n' + '=' * (_NS_LEN + 6) + '\n\nSection text.\n\n@@CNS98@@ \u043f\n' + '-' * (_NS_LEN + 6) + '\n\nSubsection text.', param=':param a: pa @@CAN17@@', typ=':type a: ``@@CNQ18@@``', badparam=':param @@CAN19@@: unknown param',
+    'restructuredtext': dict(onesect='@@CNS97@@ x\n' + '=' * (_NS_LEN + 6) + '\n\nThe only section.', sect='\u00e9 @@CNS99@@\n' + '=' * (_NS_LEN + 6) + '\n\nSection text.\n\n@@CNS98@@ \u043f\n' + '-' * (_NS_LEN + 6) + '\n\nSubsection text.', param=':param a: pa @@CAN17@@', typ=':type a: ``@@CNQ18@@``', badparam=':param @@CAN19@@: unknown param',
                              rais=':raise @@CAN20@@: exc @@CAN35@@', ret=':return: r @@CAN21@@', see=':see: @@CAN22@@', unk=':unknownfield @@CAN23@@: x',
                              ivar=':ivar iv: d @@CAN26@@', cvar=':cvar @@CAN27@@: bad name', rtype=':rtype: @@CNQ32@@', inline='``@@CAN36@@`` **@@CAN37@@** `label <http://example.com/@@CAQ70@@>`_ http://example.com/@@CAQ71@@ `label <http://example.com/@@CAQ77@@>` `label <https://example.com/x@@CAQ78@@ y>` `<ftp://example.com/@@CAQ79@@>`\n\n.. image:: http://example.com/x.png\n   :alt: alt @@CAQ72@@\n\n.. code-block:: bash\n\n   echo @@CAW90@@\n\n.. code:: json\n\n   {{"k": "@@CAW92@@"}}\n\n.. code:: python\n\n   x = "@@CAW93@@"\n\nTarget_ text.\n\n.. _Target: http://example.com/@@CAQ73@@'),
-    'google': dict(sect='', param='Args:\n        a: pa @@CAN17@@\n        @@CAN19@@ (@@CNQ18@@): unknown param', typ='', badparam='',
+    'google': dict(onesect='@@CNS97@@ x\n' + '=' * (_NS_LEN + 6) + '\n\nThe only section.', sect='', param='Args:\n        a: pa @@CAN17@@\n        @@CAN19@@ (@@CNQ18@@): unknown param', typ='', badparam='',
                    rais='Raises:\n        @@CAN20@@: exc @@CAN35@@', ret='Returns:\n        r @@CAN21@@', see='See Also:\n        @@CAN22@@', unk='Note:\n        @@CAN23@@',
                    ivar='Attributes:\n        iv: d @@CAN26@@\n        @@CAN27@@: bad name', cvar='', rtype='', inline='``@@CAN36@@`` **@@CAN37@@** `label <http://example.com/@@CAQ70@@>`_ http://example.com/@@CAQ71@@ `label <http://example.com/@@CAQ77@@>` `label <https://example.com/x@@CAQ78@@ y>` `<ftp://example.com/@@CAQ79@@>`\n\n.. image:: http://example.com/x.png\n   :alt: alt @@CAQ72@@\n\n.. code-block:: bash\n\n   echo @@CAW90@@\n\n.. code:: json\n\n   {{"k": "@@CAW92@@"}}\n\n.. code:: python\n\n   x = "@@CAW93@@"'),
-    'numpy': dict(sect='', param='Parameters\n    ----------\n    a : @@CNQ18@@\n        pa @@CAN17@@\n    @@CAN19@@\n        unknown param', typ='', badparam='',
+    'numpy': dict(onesect='@@CNS97@@ x\n' + '=' * (_NS_LEN + 6) + '\n\nThe only section.', sect='', param='Parameters\n    ----------\n    a : @@CNQ18@@\n        pa @@CAN17@@\n    @@CAN19@@\n        unknown param', typ='', badparam='',
                   rais='Raises\n    ------\n    @@CAN20@@\n        exc @@CAN35@@', ret='Returns\n    -------\n    @@CNQ32@@\n        r @@CAN21@@', see='See Also\n    --------\n    @@CAN22@@', unk='Notes\n    -----\n    @@CAN23@@',
                   ivar='Attributes\n    ----------\n    iv\n        d @@CAN26@@\n    @@CAN27@@\n        bad name', cvar='', rtype='', inline='``@@CAN36@@`` **@@CAN37@@** `label <http://example.com/@@CAQ70@@>`_ http://example.com/@@CAQ71@@ `label <http://example.com/@@CAQ77@@>` `label <https://example.com/x@@CAQ78@@ y>` `<ftp://example.com/@@CAQ79@@>`\n\n.. image:: http://example.com/x.png\n   :alt: alt @@CAQ72@@\n\n.. code-block:: bash\n\n   echo @@CAW90@@\n\n.. code:: json\n\n   {{"k": "@@CAW92@@"}}\n\n.. code:: python\n\n   x = "@@CAW93@@"'),
-    'plaintext': dict(sect='@@CNS99@@', param='@param a: pa @@CAN17@@', typ='', badparam='', rais='@@CAN20@@ @@CAN35@@', ret='@@CAN21@@', see='@@CAN22@@', unk='@@CAN23@@', ivar='@@CAN26@@',
+    'plaintext': dict(onesect='@@CNS97@@', sect='@@CNS99@@', param='@param a: pa @@CAN17@@', typ='', badparam='', rais='@@CAN20@@ @@CAN35@@', ret='@@CAN21@@', see='@@CAN22@@', unk='@@CAN23@@', ivar='@@CAN26@@',
                       cvar='@@CAN27@@', rtype='@@CNQ32@@', inline='@@CAN36@@ @@CAN37@@'),
 }
 
 DIRECTED = '''"""Module doc @@CAN1@@ and {inline}.
 
-Second paragraph @@CAN38@@ and @@CFW60@@.
+Second paragraph @@CAN38@@ and @@CFW60@@, control characters \\x1b[0m \\x01 \\x08 \\x1f too.
 
 {sect}
 """
@@ -142,6 +142,12 @@ FW = ['@@CFW61@@', b'x']
 """attr doc @@CFW62@@"""
 def fw(a='@@CFW63@@', b: '@@CFW64@@' = 1):
     """Function doc @@CFW65@@."""
+def onesect():
+    """{onesect}
+    """
+class OneSect:
+    """{onesect}
+    """
 NB1 = '\xa0@@CAW80@@'
 NB2 = ['\xa0', '@@CAW81@@', '@@CAN82@@\xa0']
 WF = '@@CAW83@@'
